@@ -191,4 +191,43 @@ def subchecks(tier):
         Enum("sharma-34-lab-pairs", judge=sharma_judge, items=sharma_items, shards=1, exhaustive=True),
         Enum("de-unit-neighbours", block=neigh_block_factory(512 if q else 16), judge=pair_judge),
         Hyp("de-pairs", pair_strategy, pair_judge, examples=60000 if q else 1500000),
+        # "never raises" also under the C locale and with warnings turned into errors (child interpreters)
+        Enum("environment-child-interpreters", judge=_env_judge, items=_env_items, shards=1),
+        Enum("cold-start-threads", judge=_cold_judge, items=_cold_items, shards=6),
     ]
+
+
+def _cold_items(shard, nshards):
+    return [{"child": i} for i in range(6) if i % nshards == shard]
+
+
+def _cold_judge(case):
+    """'never raises' also for the very first Lab / CIEDE2000 calls of a fresh interpreter made from 8 threads at once."""
+    import json
+    import os
+    import subprocess
+    import sys
+
+    from vlib.runner import VERIF_DIR
+
+    env = dict(os.environ)
+    env["PYTHONPATH"] = os.pathsep.join([os.path.join(env.get("VERIF_REPO", "/repo"), "src"), VERIF_DIR])
+    p = subprocess.run([sys.executable, "-m", "vlib.c15ops", "--cold", "[]"], env=env, capture_output=True, text=True, cwd=VERIF_DIR, timeout=600)
+    if p.returncode != 0:
+        raise Violation("cold-start-crash", f"fresh interpreter with concurrent first calls died: {p.stderr[-300:]}")
+    doc = json.loads(p.stdout.strip().splitlines()[-1])
+    if doc["errors"]:
+        raise Violation("cold-start-thread-raises-or-differs", f"first Lab / dE / OKLCH calls made concurrently from 8 threads in a fresh interpreter: {doc['errors'][:2]}")
+    return {"nt": ("cold", case["child"]), "cls": ["cold-start-threads"], "sample": {"child": case["child"]}}
+
+
+def _env_judge(case):
+    from vlib.envleg import api_env_judge
+
+    return api_env_judge(case)
+
+
+def _env_items(shard, nshards):
+    from vlib.envleg import env_items
+
+    return env_items(shard, nshards)
